@@ -10,14 +10,15 @@ from specmc.sandbox import Sandbox
 
 ID = "C14"
 LEVEL = "model_checking"
-RULE = ("all ordered lists of <=2 (thorough: <=3) distinct strings over a 14-string alphabet and of integers over {-2,-1,0,1,2,10}, x null "
+RULE = ("all ordered lists of <=2 (thorough: <=3) distinct strings over a 16-string alphabet and of integers over {-2,-1,0,1,2,10}, x null "
         "member x default (none / first / non-member) x inline vs referenced x Enum classes vs literal_enums; consts over 10 values x "
         "required x typed/untyped; inputs: every listed value, null, and a probe set of values not listed (case variants, trimmed, "
         "suffixed, other type); non-trivial = the holder model was generated and every listed value exercised")
 FLOOR = 0.4
 ASSUMPTIONS = ["the pinned uncaught ValueError('Duplicate key ...') counts as 'reported' for C14 (it is C06's business as a crash)"]
 
-STRS = ["a", "A", "b", "a b", "a-b", "a.b", "a_b", "1a", "1", "", " a", "é", "+a", "a!"]
+STRS = ["a", "A", "b", "a b", "a-b", "a.b", "a_b", "1a", "1", "", " a", "é", "+a", "a!",
+        "value_1", "Value_0"]        # values that spell the positional member names given to values that cannot start an identifier
 INTS = [-2, -1, 0, 1, 2, 10]
 CONSTS = ["k", "", "a b", 0, 3, -1, 1.5, 0.0, True, False]
 
@@ -112,6 +113,14 @@ def cases(tier):
             for typed in (False, True):
                 yield {"labels": [f"const={c!r}", "req" if req else "opt"] + (["typed"] if typed else []),
                        "payload": {"mode": "const", "const": c, "required": req, "typed": typed}}
+    # a const as one member of a union: the property admits the constant and what the other member admits, nothing else
+    for c in ("k", 3, True):
+        for partner in PARTNERS:
+            for order in ("const-first", "const-last"):
+                for comb in ("oneOf", "anyOf"):
+                    for req in ((True, False) if tier == "thorough" else (True,)):
+                        yield {"labels": [f"const={c!r}", f"with={partner}", order, comb] + ([] if req else ["opt"]),
+                               "payload": {"mode": "const-union", "const": c, "partner": partner, "order": order, "comb": comb, "required": req}}
 
 
 def _enum_of(ann):
@@ -170,7 +179,9 @@ def _run_enum(p):
             n = sum(1 for w in wire_values if type(w) is type(v) and w == v)
             if n != 1:
                 others = [o for o in values if o != v]
-                dc = diffclass([v, others[0]]) if others and isinstance(v, str) else "-"
+                # what distinguishes v from the listed value it most resembles (document-side classification)
+                dcs = [diffclass([v, o]) for o in others] if isinstance(v, str) else []
+                dc = next((d for d in dcs if d != "other"), "other") if dcs else "-"
                 viol.append({"oracle": "member-count", "site": style, "key": f"{vclass(v)}/{dc}", "detail": f"value {v!r} of {values!r} has {n} members with that wire value; members: {wire_values!r}"})
         if len(wire_values) != len(values):
             viol.append({"oracle": "member-total", "site": style, "key": f"{len(values)}->{len(wire_values)}", "detail": f"{len(values)} values {values!r} but {len(wire_values)} members {wire_values!r}"})
@@ -258,6 +269,80 @@ def _run_const(p):
     return {"violations": viol, "outcome": "ok" if not viol else "viol:" + ",".join(sorted({v['oracle'] for v in viol})), "nontrivial": True, "steps": 14}
 
 
+PARTNERS = {
+    # name: (schema, values it admits, values it does not admit [beyond the generic probes])
+    "null": ({"type": "null"}, [None]),
+    "int": ({"type": "integer"}, [5, 0]),
+    "str": ({"type": "string"}, ["x", ""]),
+    "bool": ({"type": "boolean"}, [False]),
+    "const2": ({"const": "other"}, ["other"]),
+    "enum": ({"type": "string", "enum": ["e1", "e2"]}, ["e1", "e2"]),
+    "date": ({"type": "string", "format": "date"}, ["2020-01-02"]),
+    "model": ({"type": "object", "required": ["z"], "properties": {"z": {"type": "integer"}}, "additionalProperties": False}, [{"z": 1}]),
+}
+TYPE_OF = {"null": type(None), "int": int, "str": str, "bool": bool, "const2": str, "enum": str, "date": str, "model": dict}
+
+
+def _run_const_union(p):
+    from checks.c02 import err_class, find_class
+    from checks.c04 import reencode
+    c = p["const"]
+    psch, admits = PARTNERS[p["partner"]]
+    members = [{"const": c}, dict(psch)]
+    if p["order"] == "const-last":
+        members.reverse()
+    m = {"type": "object", "properties": {"p": {p["comb"]: members}, "other": {"type": "integer"}}}
+    if p["required"]:
+        m["required"] = ["p"]
+    res = gen.generate(gen.base_doc({"M": m}))
+    if res.crash:
+        return {"skipped_crash": True, "outcome": f"crash:{res.crash['type']}@{res.crash['where']}", "nontrivial": False}
+    key = f"{vclass(c)}+{p['partner']}/{p['order']}"
+    viol = []
+    with Sandbox(res.pkg_tree()) as sb:
+        try:
+            cls = find_class(res, sb, "M")
+        except SyntaxError as exc:
+            return {"violations": [{"oracle": "const-module-invalid", "site": "const-union", "key": key, "detail": f"generated module does not parse: {exc}"}], "outcome": "viol:syntax", "nontrivial": True}
+        except Exception as exc:  # noqa: BLE001
+            return {"outcome": f"import-fails:{type(exc).__name__}", "nontrivial": False}
+        if cls is None:
+            return {"outcome": "diagnosed" if res.diags else "dropped", "nontrivial": bool(res.diags)}
+        for v in [c] + list(admits):
+            try:
+                o = cls.from_dict({"p": v, "other": 1})
+                e = reencode(o.to_dict()).get("p", "<absent>")
+                if type(e) is not type(v) or e != v:
+                    viol.append({"oracle": "const-union-roundtrip", "site": "const-union", "key": f"{key}/{vclass(v) if not isinstance(v, (dict, type(None))) else type(v).__name__}",
+                                 "detail": f"{p['comb']} of const {c!r} and {p['partner']}: admitted value {v!r} re-encodes as {e!r}"})
+            except Exception as exc:  # noqa: BLE001
+                viol.append({"oracle": "const-union-rejects-admitted", "site": "const-union", "key": f"{key}/{'const' if v is c else 'partner'}/{err_class(exc)}",
+                             "detail": f"{p['comb']} of const {c!r} and {p['partner']}: {v!r} is admitted by a member but does not decode: {exc!r}"})
+        ptype = TYPE_OF[p["partner"]]
+        for x in ["K", "kk", "x", 5, 1, 0, 7, True, False, 2.5, None, [c], "", {"q": 1}]:
+            if type(x) is type(c) and x == c:
+                continue
+            if type(x) is ptype and (p["partner"] not in ("const2", "enum", "date", "model") or x in admits):
+                continue                                  # admitted by the other member
+            if ptype is int and isinstance(x, bool) or ptype is bool and isinstance(x, int) or ptype is int and isinstance(x, float):
+                continue                                  # bool / int / number conflation is C02's and C14's recorded finding, not this probe's subject
+            if isinstance(c, bool) != isinstance(x, bool) and isinstance(c, (int, bool)) and isinstance(x, (int, bool, float)) and x == c:
+                continue
+            try:
+                o = cls.from_dict({"p": x, "other": 1})
+                viol.append({"oracle": "const-union-accepts-other", "site": "const-union", "key": f"{key}/{type(x).__name__}",
+                             "detail": f"{p['comb']} of const {c!r} and {p['partner']} accepts {x!r} (decodes to {o.p!r})"})
+            except Exception:  # noqa: BLE001
+                pass
+    seen, uniq = set(), []
+    for v in viol:
+        k = (v["oracle"], v["site"], v["key"])
+        if k not in seen:
+            seen.add(k)
+            uniq.append(v)
+    return {"violations": uniq, "outcome": "ok" if not uniq else "viol:" + ",".join(sorted({v['oracle'] for v in uniq})), "nontrivial": True, "steps": 16}
+
+
 def _run_clash(p):
     from checks.c02 import find_class
     x, y = p["x"], p["y"]
@@ -309,4 +394,6 @@ def _run_clash(p):
 def run_case(p):
     if p["mode"] == "clash":
         return _run_clash(p)
+    if p["mode"] == "const-union":
+        return _run_const_union(p)
     return _run_enum(p) if p["mode"] == "enum" else _run_const(p)
